@@ -203,8 +203,9 @@ def decoder_cases(draw: Any, names: list[str], max_items: int = 14,
     known once the template instance exists; the pool has the maximal length
     ``2*(n_items-1)``).
     """
-    kind = draw(st.sampled_from(["gen", "gen", "guillotine", "guillotine",
-                                 "tiny", "tiny", "shipped"]))
+    kind = draw(st.sampled_from(["smallitems", "gen", "guillotine", "tiny",
+                                 "smallitems", "guillotine", "tiny",
+                                 "shipped"]))
     if kind == "shipped":
         name = draw(st.sampled_from(names))
         tpl: dict[str, Any] = {"kind": "shipped", "name": name}
@@ -217,6 +218,21 @@ def decoder_cases(draw: Any, names: list[str], max_items: int = 14,
             ic = draw(gen_bp.instances(classes=("tiny", "small"),
                                        max_types=4, max_mult=3,
                                        max_items=7))
+        elif kind == "smallitems":
+            # items at most half the bin in both directions: several items
+            # per bin, so n_items > min_bins and phase 1 has work to do
+            bw = draw(st.integers(2, 40))
+            bh = draw(st.integers(2, 40))
+            rows = []
+            left = max_items
+            for _t in range(draw(st.integers(1, 5))):
+                if left <= 0:
+                    break
+                m = draw(st.integers(1, min(4, left)))
+                left -= m
+                rows.append([draw(st.integers(1, max(1, bw // 2))),
+                             draw(st.integers(1, max(1, bh // 2))), m])
+            ic = {"W": bw, "H": bh, "items": rows}
         else:
             g = draw(gen_bp.guillotine(max_bins=4, max_dim=30, max_depth=3))
             ic = {"W": g["W"], "H": g["H"], "items": g["items"]}
@@ -236,7 +252,13 @@ def decoder_cases(draw: Any, names: list[str], max_items: int = 14,
         p1 = [a, b] * (n1 // 2)
     else:
         p1 = draw(st.lists(unit_reals(), min_size=n1, max_size=n1))
-    slack = draw(st.lists(slack_pair(), min_size=k, max_size=k))
+    smode = draw(st.integers(0, 3))
+    if smode == 0:  # every slack pair cuts as much as it can
+        slack = [[draw(unit_reals()),
+                  draw(st.sampled_from([NEXT_BELOW_1, -NEXT_BELOW_1]))]
+                 for _ in range(k)]
+    else:
+        slack = draw(st.lists(slack_pair(), min_size=k, max_size=k))
     hard = None
     if draw(st.integers(0, 19)) == 0:
         hard = {"max_fes": draw(st.integers(2, 6)),
